@@ -1327,6 +1327,14 @@ class Engine:
 			a = st.deref(a)
 		if isinstance(b, Ref) and b.kind in ('bytearray', 'bytes'):
 			b = st.deref(b)
+		if op in (ast.Lt, ast.LtE, ast.Gt, ast.GtE):
+			# None in an ordering comparison is a TypeError: the optional operand must be present here
+			if isinstance(a, SOpt):
+				self.oblige(st, f'compare{self._site(node)}', 'operand-not-None', z3.Not(a.is_none()))
+				a = a.value()
+			if isinstance(b, SOpt):
+				self.oblige(st, f'compare{self._site(node)}', 'operand-not-None', z3.Not(b.is_none()))
+				b = b.value()
 		r, obl = compare(op, a, b, cm)
 		for kind, g in obl:
 			self.oblige(st, f'compare{self._site(node)}', kind, g)
@@ -1386,6 +1394,13 @@ class Engine:
 				yield st, obj.getattr(attr)
 			else:
 				yield st, BoundMethod(obj, attr)
+			return
+		if isinstance(obj, SMaybe):
+			for s2, isn in self.branch(st, obj.none):
+				if isn:
+					yield s2, Raised('AttributeError')
+				else:
+					yield from self.getattr(s2, obj.ref, attr, node)
 			return
 		if isinstance(obj, Ref):
 			c = st.heap[obj.addr]
@@ -2103,6 +2118,8 @@ class Engine:
 				if rec.fields.get(f) is not cv:
 					raise Unsupported(f'field {f} of a yielded {T.name} differs from the declared constant')
 			return SRec(T, T.make_term(rec.fields))
+		if isinstance(T, TArr) and isinstance(v, Ref):
+			return st.heap[v.addr]
 		h = self.lib.get('__to_elem__')
 		if h is not None:
 			r = h(self, st, T, v)
@@ -2135,10 +2152,108 @@ class Engine:
 			if isinstance(itv, (tuple, list, range, str, bytes)):
 				yield from self._comp_unroll(node, g, s2, list(itv), 0, [], kind)
 				continue
-			h = self.lib.get('__comprehension__')
-			if h is None:
-				raise Unsupported(f'comprehension over {itv!r} (line {node.lineno})')
-			yield from h(self, s2, node, g, itv, kind)
+			yield from self._comp_symbolic(node, g, s2, itv, kind)
+
+	def _comp_symbolic(self, node, g, st, itv, kind):
+		"""[elt for target in <symbolic sequence>]: the element expression is evaluated once at a generic index j;
+		the result is a fresh sequence R with  forall j in range. exists <values created for this element>.
+		<facts assumed while evaluating it> and R[j] == elt.  Obligations raised while evaluating the element are
+		proved for the arbitrary j.  Filters, several outcomes, or effects on existing objects are outside the subset."""
+		if g.ifs or kind != 'list':
+			raise Unsupported('filtered / set comprehension over a symbolic sequence')
+		start, stop = self._iter_bounds(itv)
+		start, stop = int_term(start), int_term(stop)
+		j = z3.Int(fresh_name('cj'))
+		mark = fresh_mark()
+		s1 = st.fork()
+		s1.assume(z3.And(start <= j, j < stop))
+		pc0 = len(s1.pc)
+		heap0 = dict(s1.heap)
+		saved_env = dict(s1.env)
+		outs = []
+		for sa, item in self._iter_item(s1, itv, SInt(j)):
+			for sb, r in self.assign(g.target, item, sa):
+				if isinstance(r, Raised):
+					raise Unsupported('comprehension target unpacking may raise')
+				for sc, v in self.ev(node.elt, sb):
+					outs.append((sc, v))
+		normal = [(s, v) for s, v in outs if not isinstance(v, Raised)]
+		raised = [(s, v) for s, v in outs if isinstance(v, Raised)]
+		for s, v in raised:
+			# an element that raises makes the whole comprehension raise
+			s.env = dict(saved_env)
+			yield s, v
+		if len(normal) != 1:
+			if not normal:
+				return
+			raise Unsupported(f'comprehension element has {len(normal)} outcomes (line {node.lineno})')
+		s2, v = normal[0]
+		for addr, c in heap0.items():
+			if s2.heap.get(addr) is not c:
+				raise Unsupported('comprehension element modifies an existing object')
+		T = self._elem_type(s2, v)
+		term = T.unwrap(self.to_elem(s2, T, v))
+		facts = s2.pc[pc0:]
+		body = z3.And(*(facts + [True])) if facts else z3.BoolVal(True)
+		R = TSeq(T).fresh('comp')
+		body = z3.And(body, z3.Select(R.arr, j - start) == term)
+		newc = []
+		seen = set()
+		import re as _re
+
+		def collect(e):
+			if e.get_id() in seen:
+				return
+			seen.add(e.get_id())
+			if z3.is_quantifier(e):
+				collect(e.body())
+				return
+			if z3.is_app(e):
+				d = e.decl()
+				if d.kind() == z3.Z3_OP_UNINTERPRETED:
+					m = _re.search(r'!(\d+)$', d.name())
+					if m and int(m.group(1)) > mark:
+						if e.num_args() > 0:
+							raise Unsupported('comprehension element introduces a ghost function')
+						newc.append(e)
+				for c in e.children():
+					collect(c)
+		collect(body)
+		newc = [c for c in newc if not c.eq(R.arr) and not c.eq(R.length)]
+		inner = z3.Exists(newc, body) if newc else body
+		st.assume(z3.ForAll([j], z3.Implies(z3.And(start <= j, j < stop), inner)))
+		st.assume(R.length == z3.If(stop >= start, stop - start, 0))
+		ref = Ref('list')
+		st.heap[ref.addr] = R
+		yield st, ref
+
+	def _elem_type(self, st, v):
+		if isinstance(v, bool) or isinstance(v, SBool):
+			return TBool
+		if is_intlike(v):
+			return TInt
+		if isinstance(v, (SReal, float)):
+			return TReal
+		if isinstance(v, SF32):
+			return TF32
+		if isinstance(v, (SStr, str)):
+			return TStr
+		if isinstance(v, SObj):
+			return v.T
+		if isinstance(v, SRec):
+			return v.T
+		if isinstance(v, SArr):
+			return TArr(v.elem, v.kind)
+		if isinstance(v, Ref):
+			c = st.heap[v.addr]
+			if isinstance(c, Record):
+				T = self.lib.get('rectype:' + c.cls)
+				if T is None:
+					raise Unsupported(f'no record type registered for {c.cls}')
+				return T
+			if isinstance(c, SArr):
+				return TArr(c.elem, c.kind)
+		raise Unsupported(f'element type of {v!r}')
 
 	def _comp_unroll(self, node, g, st, items, k, acc, kind):
 		if k >= len(items):
